@@ -22,6 +22,20 @@ def awaits(fn: FuncInfo) -> list[ast.Await]:
     return [n for n in walk_no_nested(fn.node) if isinstance(n, ast.Await)]
 
 
+def closed_flag(m: Model, conn_q: str) -> str:
+    """The connection's closed flag by role: the private attribute its close() sets to True (renaming it is invisible to the rules)."""
+    c = m.require_class(conn_q)
+    cl = c.methods.get("close")
+    if cl is None:
+        raise AnalysisError(f"{conn_q}.close vanished")
+    flags = sorted({n.targets[0].attr for n in ast.walk(cl.node) if isinstance(n, ast.Assign) and isinstance(n.targets[0], ast.Attribute) and ast.unparse(n.targets[0].value) == "self"
+                    and isinstance(n.value, ast.Constant) and n.value.value is True})
+    if len(flags) != 1:
+        raise AnalysisError(f"{conn_q}.close: closed flag not found ({flags})")
+    return flags[0]
+
+
+
 def run(m: Model, r: Report, tier: str) -> None:
     r.rule("R1", "every stream / queue wait reachable from a transport's read or write is bounded by the caller's timeout, "
                  "and a waiter already blocked on the frame queue is woken when the reader task ends", floor=10)
@@ -63,7 +77,7 @@ def run(m: Model, r: Report, tier: str) -> None:
                 bad.append(f"line {a.lineno}: `{ast.unparse(a)[:60]}` is awaited without the caller's timeout")
         r.check(not bad, "R1", f"{f.qualname}#bounded", "; ".join(bad) + ": a silent or vanished peer blocks the caller beyond its timeout", loc=f.loc)
     # queue waiters vs reader-task exit
-    for cq, worker_name, flag in ((f"{DOIP}.DoIPConnection", "_read_worker", "_is_closed"), (f"{HSFZ}.HSFZConnection", "_read_worker", "_closed")):
+    for cq, worker_name, flag in ((f"{DOIP}.DoIPConnection", "_read_worker", closed_flag(m, f"{DOIP}.DoIPConnection")), (f"{HSFZ}.HSFZConnection", "_read_worker", closed_flag(m, f"{HSFZ}.HSFZConnection"))):
         conn = m.require_class(cq)
         worker = conn.methods[worker_name]
         q = lm.key_for(conn, "_read_queue", lm.queues)
@@ -151,7 +165,7 @@ def run(m: Model, r: Report, tier: str) -> None:
                 "the reader task can end (EOF, reset, unexpected exception) without closing the connection or setting the closed flag: "
                 "later reads wait on a queue nobody feeds" + ((": " + " -> ".join(repr(g.nodes[p]) for p in path[-3:])) if path else ""), loc=worker.loc)
     # R3
-    for fq, flag in ((f"{DOIP}.DoIPConnection.read_frame_unsafe", "_is_closed"), (f"{HSFZ}.HSFZConnection.read_frame", "_closed")):
+    for fq, flag in ((f"{DOIP}.DoIPConnection.read_frame_unsafe", closed_flag(m, f"{DOIP}.DoIPConnection")), (f"{HSFZ}.HSFZConnection.read_frame", closed_flag(m, f"{HSFZ}.HSFZConnection"))):
         f = m.require_function(fq)
         # with the flag set, neither the wait on the queue nor a normal return is reachable (paths through the CFG with the flag-clear branches removed)
         gets = [n for n in ast.walk(f.node) if isinstance(n, ast.Call) and ast.unparse(n.func).endswith("_read_queue.get")]
